@@ -203,8 +203,6 @@ Proof.
   rewrite forallb_all by exact L. cbn. reflexivity.
 Qed.
 
-Definition f25 : list tok := fail "service_name_always_present:non_string_executable_name".
-
 Lemma doc_defaults_lookup k : last_binding k doc_defaults = lookup k doc_defaults.
 Proof. symmetry. apply lookup_doc_defaults. Qed.
 
@@ -221,64 +219,64 @@ Proof.
   unfold starts_with. assert (H : strip_prefix p (p ++ s) = Some s) by now apply strip_prefix_spec. now rewrite H.
 Qed.
 
-(* Create: no clause fails, except that a throwing Create is reported under the signature of finding F25 *)
+Lemma create_nodup ra sn attrs schema : NoDup (keys (r_attrs (create ra sn (map_of_list attrs) schema))).
+Proof.
+  unfold create. destruct detector_consts as (_ & _ & _ & Es & Ee). rewrite Es, Ee.
+  pose proof (merged_nodup ra sn (map_of_list attrs) schema (nodup_map_of_list attrs)) as M.
+  destruct (lookup key_service_name _); [exact M|]. cbn [r_attrs]. now apply nodup_map_set.
+Qed.
+
+(* Create: no clause fails *)
 Theorem clause_create_ok : forall ra sn attrs schema,
-  clause_create ra sn attrs schema (obs_of_o (create ra sn (map_of_list attrs) schema)) =
-  match create ra sn (map_of_list attrs) schema with Some _ => [] | None => f25 end.
+  clause_create ra sn attrs schema (obs_of (create ra sn (map_of_list attrs) schema)) = [].
 Proof.
   intros ra sn attrs schema.
-  pose proof (create_characterised ra sn (map_of_list attrs) schema) as C.
-  destruct (create ra sn (map_of_list attrs) schema) as [r|] eqn:Ec; cbn [obs_of_o].
-  - destruct C as (Cs & Cl & Cf).
-    assert (N : NoDup (keys (r_attrs r))).
-    { unfold create in Ec. destruct detector_consts as (_ & _ & _ & Es & Ee). rewrite Es, Ee in Ec.
-      pose proof (merged_nodup ra sn (map_of_list attrs) schema (nodup_map_of_list attrs)) as M.
-      destruct (lookup key_service_name _); [inversion Ec; subst; exact M|].
-      destruct (lookup key_exe_name _) as [[e|z|b]|]; inversion Ec; subst; cbn [r_attrs]; now apply nodup_map_set. }
-    unfold clause_create, obs_of.
-    rewrite sorted_sort_map by auto. cbn [check app].
-    assert (L : forall k, lookup k (sort_map (r_attrs r)) =
-                          match layered ra sn (map_of_list attrs) k with
-                          | Some v => Some v
-                          | None => if bytes_eqb k key_service_name
-                                    then fallback_name (layered ra sn (map_of_list attrs) key_exe_name) else None
-                          end).
-    { intros k. rewrite lookup_sort_map by auto. apply Cl. }
-    rewrite forallb_all.
-    2:{ intros k. rewrite L, layered_list. destruct (last_binding k attrs); auto. apply ovalue_eqb_refl. }
-    rewrite forallb_all.
-    2:{ intros k. rewrite L, layered_list. destruct (last_binding k attrs); auto. destruct (env_says ra sn k); auto. apply ovalue_eqb_refl. }
-    rewrite forallb_all.
-    2:{ intros k. rewrite L, layered_list. destruct (last_binding k attrs); auto. destruct (env_says ra sn k); auto.
-        destruct (last_binding k doc_defaults); auto. apply ovalue_eqb_refl. }
-    rewrite forallb_all.
-    2:{ intros k. rewrite L, layered_list. destruct (last_binding k attrs); auto. destruct (env_says ra sn k); auto.
-        destruct (last_binding k doc_defaults); auto. destruct (bytes_eqb k key_service_name); auto. }
-    cbn [check app].
-    rewrite (L key_service_name), bytes_eqb_refl. rewrite !layered_list in *.
-    destruct (match last_binding key_service_name attrs with
+  destruct (create_characterised ra sn (map_of_list attrs) schema) as (Cs & Cl).
+  set (r := create ra sn (map_of_list attrs) schema) in *.
+  assert (N : NoDup (keys (r_attrs r))) by apply create_nodup.
+  unfold clause_create, obs_of.
+  rewrite sorted_sort_map by auto. cbn [check app].
+  assert (L : forall k, lookup k (sort_map (r_attrs r)) =
+                        match layered ra sn (map_of_list attrs) k with
+                        | Some v => Some v
+                        | None => if bytes_eqb k key_service_name
+                                  then Some (fallback_name (layered ra sn (map_of_list attrs) key_exe_name)) else None
+                        end).
+  { intros k. rewrite lookup_sort_map by auto. apply Cl. }
+  rewrite forallb_all.
+  2:{ intros k. rewrite L, layered_list. destruct (last_binding k attrs); auto. apply ovalue_eqb_refl. }
+  rewrite forallb_all.
+  2:{ intros k. rewrite L, layered_list. destruct (last_binding k attrs); auto. destruct (env_says ra sn k); auto. apply ovalue_eqb_refl. }
+  rewrite forallb_all.
+  2:{ intros k. rewrite L, layered_list. destruct (last_binding k attrs); auto. destruct (env_says ra sn k); auto.
+      destruct (last_binding k doc_defaults); auto. apply ovalue_eqb_refl. }
+  rewrite forallb_all.
+  2:{ intros k. rewrite L, layered_list. destruct (last_binding k attrs); auto. destruct (env_says ra sn k); auto.
+      destruct (last_binding k doc_defaults); auto. destruct (bytes_eqb k key_service_name); auto. }
+  cbn [check app].
+  rewrite (L key_service_name), bytes_eqb_refl. rewrite !layered_list in *.
+  destruct (match last_binding key_service_name attrs with
+            | Some v => Some v
+            | None => match env_says ra sn key_service_name with Some v => Some v | None => last_binding key_service_name doc_defaults end
+            end) as [sv|] eqn:Ls.
+  + cbn [check app]. rewrite Cs, bytes_eqb_refl. reflexivity.
+  + destruct (match last_binding key_exe_name attrs with
               | Some v => Some v
-              | None => match env_says ra sn key_service_name with Some v => Some v | None => last_binding key_service_name doc_defaults end
-              end) as [sv|] eqn:Ls.
-    + cbn [check app]. rewrite Cs, bytes_eqb_refl. reflexivity.
-    + specialize (Cf eq_refl).
-      destruct (match last_binding key_exe_name attrs with
-                | Some v => Some v
-                | None => match env_says ra sn key_exe_name with Some v => Some v | None => last_binding key_exe_name doc_defaults end
-                end) as [[e|z|b]|] eqn:Le; cbn [fallback_name] in *; try congruence.
-      * rewrite starts_with_app. cbn [check app]. rewrite Cs, bytes_eqb_refl. reflexivity.
-      * change (bs "unknown_service") with (bs "unknown_service" ++ []). rewrite starts_with_app.
-        cbn [check app]. rewrite Cs, bytes_eqb_refl. reflexivity.
-  - unfold clause_create. rewrite !layered_list in C.
-    destruct C as [[C1 [z C2]]|[C1 [b C2]]]; rewrite C1, C2; reflexivity.
+              | None => match env_says ra sn key_exe_name with Some v => Some v | None => last_binding key_exe_name doc_defaults end
+              end) as [[e|z|b]|] eqn:Le; cbn [fallback_name].
+    * rewrite starts_with_app. cbn [check app]. rewrite Cs, bytes_eqb_refl. reflexivity.
+    * change (bs "unknown_service") with (bs "unknown_service" ++ []). rewrite starts_with_app.
+      cbn [check app]. rewrite Cs, bytes_eqb_refl. reflexivity.
+    * change (bs "unknown_service") with (bs "unknown_service" ++ []). rewrite starts_with_app.
+      cbn [check app]. rewrite Cs, bytes_eqb_refl. reflexivity.
+    * change (bs "unknown_service") with (bs "unknown_service" ++ []). rewrite starts_with_app.
+      cbn [check app]. rewrite Cs, bytes_eqb_refl. reflexivity.
 Qed.
 
 (* ================================================================ whole scripts *)
 
-Definition only_f25 (l : list tok) : Prop := Forall (fun t => t = tag "service_name_always_present:non_string_executable_name") l.
-
-Lemma only_f25_app a b : only_f25 a -> only_f25 b -> only_f25 (a ++ b).
-Proof. apply Forall_app_intro || (intros; apply Forall_app; auto). Qed.
+Lemma app_eq_nil_intro {A} (a b : list A) : a = [] -> b = [] -> a ++ b = [].
+Proof. intros -> ->. reflexivity. Qed.
 
 Definition nodup_o (o : option resource) : Prop := match o with Some r => NoDup (keys (r_attrs r)) | None => True end.
 
@@ -290,18 +288,10 @@ Definition relem (ra sn : envv) (st : store) (op : rop) : option resource :=
                   | Some (Some a), Some (Some b) => Some (merge a b)
                   | _, _ => None
                   end
-  | RCreate attrs schema => create ra sn (map_of_list attrs) schema
+  | RCreate attrs schema => Some (create ra sn (map_of_list attrs) schema)
   end.
 Lemma rstep_relem ra sn st op : rstep ra sn st op = st ++ [relem ra sn st op].
 Proof. reflexivity. Qed.
-
-Lemma create_nodup ra sn attrs schema r : create ra sn (map_of_list attrs) schema = Some r -> NoDup (keys (r_attrs r)).
-Proof.
-  intros Ec. unfold create in Ec. destruct detector_consts as (_ & _ & _ & Es & Ee). rewrite Es, Ee in Ec.
-  pose proof (merged_nodup ra sn (map_of_list attrs) schema (nodup_map_of_list attrs)) as M.
-  destruct (lookup key_service_name _); [inversion Ec; subst; exact M|].
-  destruct (lookup key_exe_name _) as [[e|z|b]|]; inversion Ec; subst; cbn [r_attrs]; now apply nodup_map_set.
-Qed.
 
 Lemma relem_nodup ra sn st op : Forall nodup_o st -> nodup_o (relem ra sn st op).
 Proof.
@@ -310,7 +300,7 @@ Proof.
   - destruct (nth_error st i) as [[a|]|] eqn:Ei; cbn; auto.
     destruct (nth_error st j) as [[b|]|] eqn:Ej; cbn; auto.
     apply merge_spec_proof. apply nth_error_In in Ej. rewrite Forall_forall in H. apply (H _ Ej).
-  - destruct (create ra sn (map_of_list attrs) schema) as [r|] eqn:Ec; cbn; auto. eapply create_nodup; eauto.
+  - cbn. apply create_nodup.
 Qed.
 
 Fixpoint entries (ra sn : envv) (st : store) (ops : list rop) : store :=
@@ -339,44 +329,43 @@ Fixpoint rops_wf (n : nat) (ops : list rop) : Prop :=
 Lemma clause_op_ok ra sn (st : store) (all : list robs) op :
   Forall nodup_o st -> op_wf (length st) op ->
   (forall i, (i < length st)%nat -> nth i all None = obs_of_o (nth i st None)) ->
-  only_f25 (match op with
-            | RNew attrs schema => clause_new attrs schema (obs_of_o (relem ra sn st op))
-            | RMerge i j => clause_merge (nth i all None) (nth j all None) (obs_of_o (relem ra sn st op))
-            | RCreate attrs schema => clause_create ra sn attrs schema (obs_of_o (relem ra sn st op))
-            end).
+  match op with
+  | RNew attrs schema => clause_new attrs schema (obs_of_o (relem ra sn st op))
+  | RMerge i j => clause_merge (nth i all None) (nth j all None) (obs_of_o (relem ra sn st op))
+  | RCreate attrs schema => clause_create ra sn attrs schema (obs_of_o (relem ra sn st op))
+  end = [].
 Proof.
   intros Hn Hwf Hall.
   destruct op as [attrs schema|i j|attrs schema]; cbn [relem].
-  - cbn [obs_of_o]. rewrite clause_new_ok. constructor.
+  - cbn [obs_of_o]. apply clause_new_ok.
   - destruct (nth_error st i) as [[a|]|] eqn:Ei.
     + assert (Li : (i < length st)%nat) by (apply nth_error_Some; congruence).
       rewrite (Hall i Li), (nth_error_nth st i None Ei).
       destruct (nth_error st j) as [[b|]|] eqn:Ej.
       * assert (Lj : (j < length st)%nat) by (apply nth_error_Some; congruence).
         rewrite (Hall j Lj), (nth_error_nth st j None Ej). cbn [obs_of_o].
-        rewrite clause_merge_ok; [constructor| |].
+        apply clause_merge_ok.
         -- apply nth_error_In in Ei. rewrite Forall_forall in Hn. apply (Hn _ Ei).
         -- apply nth_error_In in Ej. rewrite Forall_forall in Hn. apply (Hn _ Ej).
       * assert (Lj : (j < length st)%nat) by (apply nth_error_Some; congruence).
-        rewrite (Hall j Lj), (nth_error_nth st j None Ej). cbn. constructor.
+        rewrite (Hall j Lj), (nth_error_nth st j None Ej). reflexivity.
       * apply nth_error_None in Ej. cbn in Hwf. lia.
     + assert (Li : (i < length st)%nat) by (apply nth_error_Some; congruence).
-      rewrite (Hall i Li), (nth_error_nth st i None Ei). cbn. constructor.
+      rewrite (Hall i Li), (nth_error_nth st i None Ei). reflexivity.
     + apply nth_error_None in Ei. cbn in Hwf. lia.
-  - rewrite clause_create_ok. destruct (create ra sn (map_of_list attrs) schema); [constructor|].
-    repeat constructor.
+  - cbn [obs_of_o]. apply clause_create_ok.
 Qed.
 
 Lemma clause_rops_from ra sn : forall rest st, Forall nodup_o st -> rops_wf (length st) rest ->
-  only_f25 (clause_rops_aux ra sn rest (map obs_of_o (entries ra sn st rest))
-                            (map obs_of_o (st ++ entries ra sn st rest))).
+  clause_rops_aux ra sn rest (map obs_of_o (entries ra sn st rest))
+                  (map obs_of_o (st ++ entries ra sn st rest)) = [].
 Proof.
   induction rest as [|op rest IH]; intros st Hn Hwf.
-  - cbn. constructor.
+  - reflexivity.
   - destruct Hwf as [Hwf1 Hwf2]. cbn [entries map clause_rops_aux].
     set (x := relem ra sn st op).
     set (all := map obs_of_o (st ++ x :: entries ra sn (st ++ [x]) rest)).
-    apply only_f25_app.
+    apply app_eq_nil_intro.
     + apply clause_op_ok; auto. intros i Hi. unfold all.
       change None with (obs_of_o None) at 1. rewrite map_nth. now rewrite app_nth1.
     + assert (E : all = map obs_of_o ((st ++ [x]) ++ entries ra sn (st ++ [x]) rest))
@@ -386,10 +375,9 @@ Proof.
       * rewrite app_length. cbn [length]. replace (length st + 1)%nat with (S (length st)) by lia. exact Hwf2.
 Qed.
 
-(* every clause evaluated on a resource script holds of the model; the only report possible is the
-   signature of finding F25 (a Create that throws) *)
+(* every clause evaluated on a resource script holds of the model *)
 Theorem clause_rops_ok : forall ra sn ops, rops_wf 0 ops ->
-  only_f25 (clause_rops ra sn ops (map obs_of_o (run_rops ra sn ops))).
+  clause_rops ra sn ops (map obs_of_o (run_rops ra sn ops)) = [].
 Proof.
   intros ra sn ops Hwf. unfold clause_rops, run_rops. rewrite fold_entries. cbn [app].
   apply (clause_rops_from ra sn ops []); [constructor|exact Hwf].
